@@ -74,9 +74,9 @@ def build_events(ctx: Ctx, cal_ids: list, rnd: random.Random, year_mod: int, chu
                 # the implementation documents table-driven fast paths for 1900-2100: walk them fully
                 segs.append([-25567 - 5, 47846 + 5])
         for ev in years[c]:
-            if year_mod <= 1 or ev["y"] % year_mod == phase or ev["y"] in (cal.min_year, cal.max_year):
-                if year_mod <= 1 and ev["y"] % 4 != phase % 4 and ev["y"] not in (cal.min_year, cal.max_year):
-                    continue
+            # field probes: every year in the exhaustive mode; sampled years plus every century year (where leap rules
+            # written with a shortcut go wrong) otherwise
+            if year_mod <= 1 or ev["y"] % year_mod == phase or ev["y"] % 100 == 0 or ev["y"] in (cal.min_year, cal.max_year):
                 ptasks.append((c, ev["y"]))
         for a, b in _merge(segs):
             x = a
